@@ -161,6 +161,25 @@ def gen_cases(ctx, scale):
                 hs.append(h)
             rem = sorted(set(r.range(1, nk) for _ in range(r.below(1 + nk // 2)))) if r.chance(1, 2) else []
             out.append((H, 'tp4 %d %d %d %d %s %s' % (H, L, L1, len(rem), ' '.join(map(str, rem)), ' '.join(map(str, hs))), None))
+            # chained generations for LimP4: throwing hash functor during the first Reserve, then a second Reserve
+            L2 = L1 + r.choice([2, 3])
+            hs2 = hs if r.chance(1, 2) else [((h & ~0xFFFF) & M64) | r.below(2) for h in hs]
+            out.append((H, 'tp4c %d %d %d %d %d %d %s %s' % (H, L, L1, L2, r.choice([-1, 0, 1, 2, r.below(nk + 1)]), len(rem),
+                                                         ' '.join(map(str, rem)), ' '.join(map(str, hs2))), None))
+    # BucketOne table level: fill, remove, Reserve, compare every bucket's hash state / key (the full getter is never called)
+    for i in range(40 * scale):
+        L = r.choice([1, 2, 3, 4, 5, 6]); L1 = min(11, L + r.choice([1, 1, 2, 3, 6]))
+        cap = int((1 << L) / 8.0 * 5.0)
+        if cap < 1: continue
+        nk = r.range(max(1, cap // 2), cap)
+        lowbits = r.choice([L, L1, max(0, L - 1), 1, 12])
+        hs = []
+        for _ in range(nk):
+            h = rnd_hash(r, edges)
+            if r.chance(1, 2): h = (h & ~((1 << 16) - 1) & M64) | r.below(1 << lowbits)
+            hs.append(h)
+        rem = sorted(set(r.range(1, nk) for _ in range(r.below(1 + nk // 2)))) if r.chance(1, 2) else []
+        out.append((0, 'tone %d %d %d %s %s' % (L, L1, len(rem), ' '.join(map(str, rem)), ' '.join(map(str, hs))), None))
     # growing FROM 2 buckets (probe shift 0: every element needs the full getter -> throwing getter -> chained generations)
     for i in range(12 * scale):
         nk = r.range(2, 5); hs = [rnd_hash(r, edges) for _ in range(nk)]
@@ -345,7 +364,7 @@ def run(ctx):
     for c in allc[::max(1, len(allc) // 6)][:6]:
         ctx.add_sample(c[:300])
     ctx.coverage['input_distribution'] = {k: sum(1 for c in allc if c.startswith(k)) for k in
-                                          ('o2add', 'o2rem', 'o2get', 'p4set', 'p4rem', 'p4get', 'p4seq', 'tbl', 'tp4', 'one', 'start', 'next', 'short', 'set')}
+                                          ('o2add', 'o2rem', 'o2get', 'p4set', 'p4rem', 'p4get', 'p4seq', 'tbl', 'tp4', 'tone', 'one', 'start', 'next', 'short', 'set')}
     return ctx.finish(rule=RULE)
 
 RULE = ('cases = random + boundary (h: 0,1,2^k-1,2^k,2^k+1, bytes of ones/zeros at every position, all-ones; L: 0..63 aimed at the '
